@@ -454,6 +454,60 @@ for lo_none in (True, False):
                                       label=f"hvsrpy.hvsr_diffuse_field.HvsrDiffuseField.mean_curve_peak[f_low={'None' if lo_none else 'x'},f_high={'None' if hi_none else 'y'},kwargs={kw}]",
                                       clauses=["the diffuse-field peak is the highest local maximum of the curve in the range"]))
 
+# ---------------------------------------------------------------- HvsrAzimuthal: range / filters / grid are those of the first azimuth; the peak of the (weighted) mean curve
+def _az_first_inputs(ex, st):
+    first = sym_obj(ex, st, "HvsrTraditional", {"frequency": ex.alloc_arr(st, (m,), FQ, "real", "param:self.hvsrs[0].frequency", tag="frequency"),
+                                                "_search_range_in_hz": Tup((old_lo, old_hi)), "_find_peaks_kwargs": DictV({"prominence": prom0})},
+                    owner="param:self.hvsrs[0]")
+    second = sym_obj(ex, st, "HvsrTraditional", {"frequency": ex.alloc_arr(st, (m,), z3.Const("other_frequency", z3.ArraySort(I, R)), "real", "param:self.hvsrs[1].frequency"),
+                                                 "_search_range_in_hz": Tup((z3.Real("other_lo"), z3.Real("other_hi"))), "_find_peaks_kwargs": DictV({})},
+                     owner="param:self.hvsrs[1]")
+    st.env["self"] = sym_obj(ex, st, "HvsrAzimuthal", {"hvsrs": ex.alloc_list(st, [first, second], owner="param:self.hvsrs")}, owner="param:self")
+    st.env["m"] = m
+    return [m >= 1]
+
+
+AZ_FIRST = {}
+for _nm, _ens in (("frequency", ["result is self.hvsrs[0].frequency"]),
+                  ("_search_range_in_hz", ["result == self.hvsrs[0]._search_range_in_hz"]),
+                  ("_find_peaks_kwargs", ["result is self.hvsrs[0]._find_peaks_kwargs"])):
+    AZ_FIRST[_nm] = Contract(qual="hvsrpy.hvsr_azimuthal.HvsrAzimuthal." + _nm, params=["self"], make_inputs=_az_first_inputs, ensures=_ens, modifies=[], is_property=True,
+                             notes="the common grid / the range and filters of the last peak search, read from the first azimuth (update_peaks_bounded hands every azimuth the same)")
+    TASKS.append(FunctionTask(AZ_FIRST[_nm], clauses=["azimuthal: grid, range and filters of the first azimuth"]))
+
+
+def _amcp_inputs(lo_none, hi_none, kw):
+    def mk(ex, st):
+        st.env["self"] = sym_obj(ex, st, "HvsrAzimuthal", {}, owner="param:self")
+        st.env["distribution"] = z3.Int("distribution")
+        st.env["m"] = m
+        return [m >= 1]
+    return mk
+
+
+def _az_props(lo_none, hi_none, kw):
+    mk = lambda f: Contract(qual="hvsrpy.hvsr_azimuthal.HvsrAzimuthal.x", params=["self"], ensures=[], modifies=[], is_property=True, make_result=f)
+    return {"HvsrAzimuthal.frequency": mk(lambda ex, st, env: ex.alloc_arr(st, (m,), FQ, "real", "param:self.hvsrs[0].frequency", tag="frequency")),
+            "HvsrAzimuthal._search_range_in_hz": mk(lambda ex, st, env: _range_value(lo_none, hi_none)),
+            "HvsrAzimuthal._find_peaks_kwargs": mk(lambda ex, st, env: _kwargs_value(kw)),
+            "HvsrAzimuthal.mean_curve": _MEAN_CURVE}
+
+
+for lo_none in (True, False):
+    for hi_none in (True, False):
+        for kw in ("empty", "dict"):
+            absent, present = _single(kw == "empty", "result[0]", "result[1]", arr=_AMC, slm=_SLMMC)
+            no_peak = f"forall(i, 1, GU1 - GL - 1, not {_SLMMC('i')})"
+            c = Contract(qual="hvsrpy.hvsr_azimuthal.HvsrAzimuthal.mean_curve_peak", params=["self", "distribution"],
+                         ghost={"GL": GL, "GU1": GU1, "MCV": lambda i: z3.Select(MC, i)}, axioms=_grid_axioms(lo_none, hi_none),
+                         make_inputs=_amcp_inputs(lo_none, hi_none, kw), modifies=[],
+                         ensures=[present], raises_only_if={"ValueError": no_peak if kw == "empty" else "True"},
+                         notes="peak of the azimuthal mean curve = highest local maximum of that curve strictly inside the stored range; otherwise ValueError")
+            TASKS.append(FunctionTask(c, registry=_az_props(lo_none, hi_none, kw),
+                                      module_env={"HvsrCurve": ModV("HvsrCurve", {"_find_peak_bounded": fpb_call(lo_none, hi_none)})},
+                                      label=f"hvsrpy.hvsr_azimuthal.HvsrAzimuthal.mean_curve_peak[f_low={'None' if lo_none else 'x'},f_high={'None' if hi_none else 'y'},kwargs={kw}]",
+                                      clauses=["the azimuthal mean-curve peak is the highest local maximum of the mean curve in the stored range"]))
+
 # ---------------------------------------------------------------- the azimuthal fan-out of a range update (contract and vocabulary: contracts/C06.py)
 import contracts.C06 as _C06
 TASKS += [t for t in _C06.TASKS if getattr(t, "label", "").startswith("hvsrpy.hvsr_azimuthal.HvsrAzimuthal.update_peaks_bounded")]
